@@ -366,7 +366,9 @@ def check_case(case):
                         break
         # ---------------- consequences
         k = len(ids)
-        tol = max(4 * case["sd"] / math.sqrt(k), 2e-3) + (0.1 if on else 0.0)
+        # Per-bin tolerance: a thorough run looks at ~1e5 noisy sex-chromosome bins, so 4 sigma would be exceeded by chance
+        # (measured: 6 of 3200 cohorts); 6.5 sigma of the per-bin consensus (sd / sqrt(k)) is not (p ~ 1e-10 per bin).
+        tol = max(6.5 * case["sd"] / math.sqrt(k), 2e-3) + (0.1 if on else 0.0)
         if k >= 2 and on:
             # corrections on: the rolling-median corrections respond to bin composition, so single bins may move;
             # the chromosome-level statement is asserted on the median of the X (and Y) bins of each block
